@@ -395,6 +395,10 @@ class Workspace:
             c.records = rs
             c.records_by[os.path.basename(str(dump))] = rs
         self.all_records = getattr(self, "all_records", []) + recs if getattr(self, "_keep_all", False) else recs
+        if not recs and sel is None and any(c.removed is None and "entrait" in c.src for c in self.cases):
+            # a build that recorded no expansion at all observed nothing (cargo itself failed, e.g. a broken environment):
+            # never "held", always inconclusive
+            raise Inconclusive("the build of workspace %s recorded no expansion at all" % self.label)
         return recs
 
     # -- running -----------------------------------------------------------
